@@ -140,3 +140,47 @@ def run(ck, prog):
     e1.run(ck, prog, SPECS)
     constant_column(ck, prog)
     ck.floor("E1-guard", 6)
+
+
+def branch_siblings(ck, prog):
+    """the penalty weight, iteration cap and tolerance handed to the optimizer do not depend on the normalisation branch:
+    both calls of `optimize` in a fit receive the same terms (up to which design matrix was augmented)"""
+    from sa.prov import Resolver
+    rule = "E1-sibling"
+
+    def skeleton(t):
+        if not isinstance(t, tuple):
+            return t
+        if t and t[0] == "call" and t[1].endswith(("::augment_x_and_y", "::rescale_x")):
+            return ("call", t[1], tuple("_" if i == 0 else skeleton(a) for i, a in enumerate(t[2])))
+        return tuple(skeleton(x) for x in t)
+    for nm, fn in (("Lasso", r"^linear::lasso::Lasso::<T, M>::fit$"), ("ElasticNet", r"^linear::elastic_net::ElasticNet::<T, M>::fit$")):
+        inst = f"{nm}::fit passes the same (lambda, max_iter, tol) to the optimizer on both normalisation branches"
+        try:
+            b = prog.one(fn)
+        except AnchorError as e:
+            ck.violation(rule, inst, fn, "", expected="anchor exists", found=f"anchor vanished: {e}")
+            continue
+        res = Resolver(b)
+        calls = [(bb, t) for bb, t in b.calls() if t.get("f") and t["f"]["path"].endswith("InteriorPointOptimizer::<T, M>::optimize")]
+        if len(calls) != 2:
+            ck.violation(rule, inst, b.path, f"{b.loc[0]}:{b.loc[1]}", expected="two optimizer runs (normalised / raw)", found=f"{len(calls)}")
+            continue
+        sk = [[skeleton(res.operand(a)) for a in t["args"][3:6]] for _, t in calls]
+        names = ["lambda", "max_iter", "tol"]
+        diff = [names[i] for i in range(3) if sk[0][i] != sk[1][i]]
+        if diff:
+            show = "; ".join(f"{names[i]}: `{render(res.operand(calls[0][1]['args'][3 + i]))[:60]}` vs `{render(res.operand(calls[1][1]['args'][3 + i]))[:60]}`"
+                             for i in range(3) if names[i] in diff)
+            ck.violation(rule, inst, b.path, b.where(calls[1][0]), expected="identical optimizer settings on both branches", found=show)
+        else:
+            ck.ok(rule, inst, b.path, b.where(calls[0][0]), f"lambda = {render(res.operand(calls[0][1]['args'][3]))[:60]}")
+
+
+_run_c08 = run
+
+
+def run(ck, prog):
+    _run_c08(ck, prog)
+    branch_siblings(ck, prog)
+    ck.floor("E1-sibling", 2)
